@@ -126,7 +126,7 @@ def run(ctx):
     from gen.probes import probes
     for name, data in probes('C05'):
         ctx.count('probe'); one(ctx, data, {'features': ['probe:' + name, 'table', 'nested_table'], 'stats': {}})
-    n = 70 if ctx.quick else 5000
+    n = 70 if ctx.quick else 2500
     for pkg, meta, rng in stream(ctx, PROF, n):
         one(ctx, pkg.to_bytes(), meta)
         if ctx.evaluations % 25 == 1: ctx.sample({'body': meta['body'][:700], 'features': meta['features']})
